@@ -4,13 +4,14 @@ import (
 	"fmt"
 	"os"
 	"path/filepath"
+	"strings"
 )
 
 // ResolvePath resolves the installation path based on flags and agent configuration.
 // Priority: customPath > userFlag > project-level (default)
 func ResolvePath(customPath string, userFlag bool, agent Agent) (string, error) {
 	if customPath != "" {
-		return filepath.Abs(customPath)
+		return physicalAbs(customPath)
 	}
 
 	if userFlag {
@@ -58,4 +59,35 @@ func ValidatePath(path string) error {
 	}
 
 	return fmt.Errorf("cannot access path: %s: %w", path, err)
+}
+
+// physicalAbs makes p absolute the way the operating system resolves it:
+// ".." is applied after symbolic links are followed, not textually
+// (filepath.Abs and filepath.Join clean the path textually, and os.Getwd
+// may return a working directory spelled through a symbolic link).
+func physicalAbs(p string) (string, error) {
+	abs := p
+	if !filepath.IsAbs(abs) {
+		wd, err := os.Getwd()
+		if err != nil {
+			return "", err
+		}
+		abs = wd + string(filepath.Separator) + p
+	}
+	vol := filepath.VolumeName(abs)
+	resolved := vol + string(filepath.Separator)
+	parts := strings.Split(filepath.ToSlash(abs[len(vol):]), "/")
+	for i, part := range parts {
+		if part == "" || part == "." {
+			continue
+		}
+		// resolved is free of symbolic links, so a textual join is exact here
+		r, err := filepath.EvalSymlinks(resolved + string(filepath.Separator) + part)
+		if err != nil {
+			// the remainder does not exist yet and will be created
+			return filepath.Join(resolved, filepath.Join(parts[i:]...)), nil
+		}
+		resolved = r
+	}
+	return resolved, nil
 }
